@@ -115,6 +115,7 @@ def build_texts(tier):
         texts += F.f_rule_singles(ops, contexts=("consumed",))
         texts += F.consuming_singles(ops + ["SMOD", "SAR", "BYTE", "SIGNEXTEND"])
         texts += F.f_exh(2)
+        texts += F.f_mem_consuming()
     else:
         texts += F.f_mem((2,))
         texts += F.f_mem((3,), deltas=[0, 1, 32], ops=("MSTORE", "MLOAD", "MSTORE8", "KECCAK256"))[::3]
@@ -128,6 +129,7 @@ def build_texts(tier):
         texts += F.f_rule_pairs(both, consts=[0, 1, F.MASK], contexts=("consumed",))
         texts += F.consuming_singles(ops + ["SMOD", "SAR", "BYTE", "SIGNEXTEND"])
         texts += F.f_exh(3)
+        texts += F.f_mem_consuming(deltas=(0, 1, 31, 32))
     seen, uniq = set(), []
     for t in texts:
         if t not in seen:
